@@ -72,6 +72,13 @@ class Acc:
 
     def violation(self, sig, case, detail=""):
         self.violations.append({"sig": sig, "case": case, "detail": str(detail)[:2000]})
+        prog = os.environ.get("VERIF_PROGRESS")  # debugging aid: stream violations of long runs to a jsonl file
+        if prog:
+            try:
+                with open(prog, "a") as fh:
+                    fh.write(json.dumps({"sig": sig, "case": case, "detail": str(detail)[:600]}, default=str) + "\n")
+            except Exception:
+                pass
 
     def timed(self, label, secs, threshold=15.0):
         """Remember slow cases so that stragglers are visible in evidence."""
